@@ -6,6 +6,7 @@ import Sqfs.Model.IdTable
 import Sqfs.Model.Finish
 import Sqfs.Model.Numbering
 import Sqfs.Model.C03FsDir
+import Sqfs.Model.C03Inode
 /-!
 `sqfsmodel c03 <mode>`
 
@@ -269,6 +270,33 @@ def opNames (names : List (List UInt8)) : String :=
 
 end Names
 
+section Inode
+open Sqfs.C03Inode
+
+/-- `fino`: a sequence of inode.c operations on a fresh file inode: S<size> B<start> F<idx>,<off> X<xattr> P<sparse>
+e (make_extended) b (make_basic) -/
+def inoStep (i : FileInode) (tok : String) : Option FileInode :=
+  let arg := (tok.drop 1).toString
+  match tok.toList.head? with
+  | some 'S' => arg.toNat?.map (fun v => setFileSize i (v % 18446744073709551616))
+  | some 'B' => arg.toNat?.map (fun v => setBlockStart i (v % 18446744073709551616))
+  | some 'X' => arg.toNat?.map (fun v => setXattr i (v % 4294967296))
+  | some 'P' => arg.toNat?.map (fun v => addSparse i (v % 4294967296))
+  | some 'F' => match (arg.splitOn ",").mapM String.toNat? with
+    | some [a, b] => some (setFragLocation i (a % 4294967296) (b % 4294967296))
+    | _ => none
+  | some 'e' => if arg.isEmpty then some (makeExtended i) else none
+  | some 'b' => if arg.isEmpty then some (makeBasic i) else none
+  | _ => none
+
+def opFino (toks : List String) : String :=
+  match toks.foldl (fun (acc : Option FileInode) t => acc.bind (fun i => inoStep i t)) (some fresh) with
+  | none => "bad-op"
+  | some (.basic st fi fo sz) => s!"basic start={st} size={sz} frag={fi},{fo}"
+  | some (.ext st sz sp nl fi fo x) => s!"ext start={st} size={sz} sparse={sp} nlink={nl} frag={fi},{fo} xattr={x}"
+
+end Inode
+
 def boolTok : String → Option Bool
   | "0" => some false
   | "1" => some true
@@ -283,6 +311,7 @@ def opStep (line : String) : String :=
     | _, _ => "bad-op"
   | ["num"] => opNum ""
   | ["num", spec] => opNum spec
+  | "fino" :: toks => opFino toks
   | "names" :: ns =>
     match ns.mapM fromHex with
     | some names => if names.any (·.isEmpty) then "bad-op" else opNames names
